@@ -18,7 +18,8 @@ CHECKS = {
              "version bytes and is a well-formed packet under an independent decoder; failure answers capability-mismatch and "
              "ends the tunnel. Tied to the code by the regenerated constants and by differential correspondence with the real "
              "matchAuth table and real Processor.Process handshakes; the extracted spec is also the oracle on the "
-             "implementation's responses.",
+             "implementation's responses."
+             " The handshake against the real binary (7 configurations x 6 client words x both transports) is compared with the same model; a refused handshake must end the legacy outbound connection too.",
         design="7/C17", technique="Coq proof (iff by case analysis on N.land) + extracted-model correspondence",
         modelled="matchAuth, handshakeRequest/Response, createPacket, the handshake case of Process (transcribed by hand)."),
 }
@@ -40,7 +41,8 @@ CHECKS["C16"] = dict(
          "from MS-TSGU) to its own type, a length field equal to the bytes sent, exactly the announced optional fields and "
          "nothing left over, and the status the step decided; status 0 iff the phase moved; cookie rejection and host denial "
          "carry 0x800759F8 / 0x800759DA; the redirection word for all 2^7 switch combinations (case analysis inside the proof) "
-         "and the idle field = max 0 t over the int32 range. The extracted decoder/oracle is run over the real responses.",
+         "and the idle field = max 0 t over the int32 range. The extracted decoder/oracle is run over the real responses."
+         " The handshake and the tunnel-authorization response of the real binary are compared with the same model for 7 + 13 configurations given by file, environment or both.",
     design="7/C16", technique="Coq proof (builders vs reference decoders, finite case analysis in-proof) + extracted-model correspondence",
     modelled="the five response builders, createPacket, makeRedirectFlags (hand transcription); main.go's config-to-flags mapping "
              "is covered by C18's real-binary runs.")
@@ -103,7 +105,8 @@ CHECKS["C15"] = dict(
          "unexpired, and yields its subject; a token minted for U verifies within its lifetime and yields U; encrypt-only and "
          "sign-and-encrypt tokens are mutually rejected; the endpoint's 405/400/403/200 mapping; allow-lists equal {HS256}, "
          "{direct}, {A128CBC-HS256} (regenerated). The real GenerateUserToken/UserInfo/TokenInfo run on minted, cross-mode, "
-         "foreign-key, foreign-algorithm, expired and per-segment-mutated tokens.",
+         "foreign-key, foreign-algorithm, expired and per-segment-mutated tokens."
+         " The token-info endpoint of the real binary (keys and issuer as main() wires them), re-encoded token texts, form POSTs and the subject of the token inside a connection file are exercised too.",
     design="7/C15", technique="Coq proof over symbolic tokens + extracted-model correspondence",
     modelled="GenerateUserToken, UserInfo, TokenInfo status mapping (symbolic); go-jose JWE/JWS and the ciphers are assumed; opacity of the token text is checked textually only.")
 
@@ -139,7 +142,8 @@ CHECKS["C18"] = dict(
          "the configured one iff it has length 32 and a fresh one otherwise; tokens minted under one signing key are rejected "
          "under any other (via the C02 model). The source's fatal conditions, substituted keys, size tests and defaults are "
          "regenerated as text and pinned by a theorem. The real binary is started on ~90 (quick) / ~500 (thorough) configurations "
-         "given by file, environment or both, and pairs of instances exchange tokens and session cookies.",
+         "given by file, environment or both, and pairs of instances exchange tokens and session cookies."
+         " A started instance is probed for what it serves (OpenID routes, Basic/NTLM/Negotiate challenges) against Model.Config.serves (C18_served_is_safe); the decisions of main() and config.Load are pinned.",
     design="7/C18", technique="Coq proof (decision-logic equivalences, source text pinned by reflexivity) + real-binary correspondence",
     modelled="config.Load checks and key substitution, NewHandler/InitStore/initOIDC/keytab fatal paths (hand transcription); koanf, "
              "mapstructure, yaml, env mapping and TLS setup are exercised only.")
@@ -203,7 +207,8 @@ CHECKS["C09"] = dict(
          "Tunnel.BytesSent, outgoing WritePacket, Gateway.IdleTimeout with the mutexes syntactically held) satisfy the discipline, "
          "so any goroutines executing any sequences of those accesses never race on them. The runtime half runs the real "
          "handlers under the Go race detector with 4 and 32 concurrent tunnels doing setup, bidirectional data, keep-alives, close "
-         "/ protocol error / disconnect while the host is sending, and checks frame integrity at the clients.",
+         "/ protocol error / disconnect while the host is sending, and checks frame integrity at the clients."
+         " The assembled binary, built with -race, is put under connection churn (16 clients, fresh connections, tunnels hijacked and torn down) and must neither report a race nor abort.",
     design="7/C09", technique="Coq proof (lockset soundness, invariant over interleavings) on translator-extracted facts + race-detector soak",
     modelled="only the syntactically extracted locking discipline of four locations; library internals, other locations and the Go "
              "memory model are explored by the race detector, not proved.")
@@ -228,7 +233,8 @@ CHECKS["C20"] = dict(
          "whatever the KDCs would do (nothing is sent); what a TCP KDC receives is the embedded message; when a KDC of the realm "
          "replies the response is that reply wrapped, and it came from one of the realm's KDCs; when none replies the answer is "
          "503; the handler is total and every wait carries the 5 s deadline. The real handler runs against fake TCP/UDP KDCs "
-         "with 9 behaviour sets, payload sizes to 128 KiB, four realm cases and the malformed-body stream; latency is measured.",
+         "with 9 behaviour sets, payload sizes to 128 KiB, four realm cases and the malformed-body stream; latency is measured."
+         " The KDC-proxy route of the real binary (Kerberos alone and stacked with OpenID) is exercised with replying, silent, partial, trickling and refusing KDCs.",
     design="7/C20", technique="Coq proof (DER round trip with arithmetic on length encodings, relay exactness) + correspondence against fake KDCs",
     modelled="KerberosProxy.Handler, decode/encode, forward/awaitReply (hand transcription of the repaired code); gofork asn1 beyond "
              "this message shape, gokrb5's config parser and KDC ordering, sockets and timers are exercised only; wall-clock bounds measured.")
